@@ -301,8 +301,63 @@ func (w *World) onApplied(n *Node, e *blockEntry, au consensus.ApplyUpdate, firs
 			w.stats.Inc("reach.foundation-subsidy")
 		}
 	}
+	if l := w.ledgers[e.id]; l != nil && l.Forest != nil {
+		w.checkUpdateNodes("apply", n, e, l.Forest, au.ForEachTreeNode)
+		// every element the update reports carries the proof a store would keep
+		report := func(kind string, id [32]byte, se types.StateElement) {
+			if se.LeafIndex == types.UnassignedLeafIndex || se.LeafIndex >= l.Forest.N() || w.ownViolation() {
+				return
+			}
+			if want := l.Forest.Path(se.LeafIndex); fmt.Sprint(want) != fmt.Sprint(se.MerkleProof) {
+				w.violate("C05", "update-diff-proof", fmt.Sprintf("node %d, block %s (height %d): the %s element %x (leaf %d) reported by the ApplyUpdate carries a proof of %d hashes that is not its path in the forest (%d hashes)", n.idx, short(e.id), e.height, kind, id[:4], se.LeafIndex, len(se.MerkleProof), len(want)))
+			}
+		}
+		for _, d := range au.SiacoinElementDiffs() {
+			report("siacoin", d.SiacoinElement.ID, d.SiacoinElement.StateElement)
+		}
+		for _, d := range au.SiafundElementDiffs() {
+			report("siafund", d.SiafundElement.ID, d.SiafundElement.StateElement)
+		}
+		for _, d := range au.FileContractElementDiffs() {
+			report("contract", d.FileContractElement.ID, d.FileContractElement.StateElement)
+		}
+		for _, d := range au.V2FileContractElementDiffs() {
+			report("v2contract", d.V2FileContractElement.ID, d.V2FileContractElement.StateElement)
+		}
+	}
 	w.lightsApplied(n, e, au)
 	w.extrasApplied(n, e, au, first)
+}
+
+// checkUpdateNodes: the tree nodes an update reports (what a store that keeps
+// nodes rather than proofs would persist) are the nodes of the naive forest.
+func (w *World) checkUpdateNodes(how string, n *Node, e *blockEntry, f *ref.Forest, forEach func(func(row, col uint64, h types.Hash256))) {
+	if w.ownViolation() {
+		return
+	}
+	bad := ""
+	count := 0
+	if p := guard(func() {
+		forEach(func(row, col uint64, h types.Hash256) {
+			count++
+			if bad != "" || row >= 63 || (col+1)<<row > f.N() {
+				return // (a node above the tree that holds it: not part of the forest)
+			}
+			if want := f.Node(row, col); want != h {
+				bad = fmt.Sprintf("node (row %d, column %d) is reported as %v, the forest has %v", row, col, h, want)
+			}
+		})
+	}); p != "" {
+		w.violate("C10", "tree-node-walk-panic", p)
+		return
+	}
+	if bad != "" {
+		w.violate("C05", "update-tree-node", fmt.Sprintf("node %d, %s of block %s (height %d): ForEachTreeNode: %s", n.idx, how, short(e.id), e.height, bad))
+		return
+	}
+	if count > 0 {
+		w.stats.Inc("probe.tree-nodes-" + how)
+	}
 }
 
 func (w *World) onReverted(n *Node, e *blockEntry, ru consensus.RevertUpdate, pre *revertSnap) {
@@ -312,6 +367,9 @@ func (w *World) onReverted(n *Node, e *blockEntry, ru consensus.RevertUpdate, pr
 	w.checkNode(n, parent, "revert")
 	if w.fatal {
 		return
+	}
+	if l := w.ledgers[parent.id]; l != nil && l.Forest != nil {
+		w.checkUpdateNodes("revert", n, e, l.Forest, ru.ForEachTreeNode)
 	}
 	w.lightsReverted(n, e, ru)
 	w.advReverted(n, e, ru)
